@@ -12,7 +12,7 @@ pub fn meta() -> Meta {
         level: "exploration",
         rule: "bounded derivations of the reference grammar: spines of k compound-statement contexts (17 contexts: every body of if/else/while/for/case/default/gate/def as block or single statement) around each of ~65 leaf statement templates, all sequences of n top-level statements, all expression trees with two (three) operators over 19 binary and 3 unary operators in 12 expression positions; each program printed with minimal, full and redundant parentheses and 9 uniform separator flavours (one with a non-ASCII line comment, one with CR LF, vertical tab and form feed) and parsed through both entry points; non-trivial = the program has a compound statement or an operator expression; outcomes = distinct tree shapes",
         assumptions: vec![
-            "the reference grammar of the model is the one listed in DESIGN.md 4.4 (official-grammar forms of the constructs the statement names); arrays, extern, defcal/cal, durationof, old-style registers and built-in calls are covered by a fixed list of 54 statement texts in 5 positions and 6 separator flavours instead; arrow measurement and box statements, which the parser does not accept, are outside the claim",
+            "the reference grammar of the model is the one listed in DESIGN.md 4.4 (official-grammar forms of the constructs the statement names); arrays, extern, defcal/cal, durationof, old-style registers and built-in calls are covered by a fixed list of 65 statement texts in 5 positions and 6 separator flavours instead; arrow measurement and box statements, which the parser does not accept, are outside the claim",
             "a number and its unit are written adjacently or separated by blanks, never by other trivia",
         ],
     }
@@ -116,6 +116,17 @@ pub const EXTRA_VALID: &[&str] = &[
     "if ( a < 3 ) h r ; else x r ;",
     "return ;",
     "end ;",
+    "delay [ 10 ns ] ;",
+    "delay [ d ] ;",
+    "if ( a ) @ann\n h r ;",
+    "while ( a ) @ann\n h r ;",
+    "for int i in [ 0 : f1 ( 1 , 2 ) ] @ann\n h r ;",
+    "if ( a ) h r ; else @ann\n x r ;",
+    "inv @ h r ;",
+    "ctrl ( 2 ) @ x q [ 0 ] , q [ 1 ] , r ;",
+    "pow ( 2 ) @ ctrl @ x r , q [ 0 ] ;",
+    "negctrl ( 2 ) @ inv @ rx ( 0.5 ) q [ 0 ] , q [ 1 ] , r ;",
+    "rx ( ) r ;",
     "nop ;",
     "nop $0 ;",
     "nop $1 , $2 ;",
